@@ -436,7 +436,29 @@ func (w *World) Preamble(body string) string {
 	b.WriteString("(define-fun str_eq ((a Str) (b Str)) Bool (and (= (st_len a) (st_len b)) (forall ((i (_ BitVec 64))) (=> (bvult i (st_len a)) (= (select (st_arr a) (bvadd (st_off a) i)) (select (st_arr b) (bvadd (st_off b) i)))))))\n")
 	}
 	for i, d := range w.extraDecls {
+		if strings.HasPrefix(w.extraKeys[i], "est_") {
+			continue // emitted after the spec blocks (see EstablishedFacts)
+		}
 		if used(w.extraKeys[i]) || strings.HasSuffix(w.extraKeys[i], "=") && used(strings.TrimSuffix(w.extraKeys[i], "=")) || strings.HasSuffix(w.extraKeys[i], "!nil") && used(strings.TrimSuffix(w.extraKeys[i], "!nil")) {
+			b.WriteString(d)
+			b.WriteString("\n")
+		}
+	}
+	return b.String()
+}
+
+// EstablishedFacts: ghost predicates established by verified contracts, for function values that
+// occur in the script body.
+func (w *World) EstablishedFacts(body string) string {
+	var b strings.Builder
+	for i, d := range w.extraDecls {
+		k := w.extraKeys[i]
+		if !strings.HasPrefix(k, "est_") {
+			continue
+		}
+		parts := strings.Split(k, "_")
+		id := parts[len(parts)-1]
+		if strings.Contains(body, " "+id+")") || strings.Contains(body, " "+id+" ") {
 			b.WriteString(d)
 			b.WriteString("\n")
 		}
